@@ -98,7 +98,7 @@ ProgV(e) ==
         ELSE {})
   (* C06 on programs without taint statements: discovered = declared, in parameters and provenance; the plain signature when *)
   (* nothing usable remains or the declaration cannot be honoured                                                           *)
-  \cup (IF ~e.taintfree \/ rep.tag # "sig" THEN {}
+  \cup (IF ~(e.taintfree \/ e.declarable) \/ rep.tag # "sig" THEN {}
         ELSE IF \E a \in DOMAIN e.declared : e.declared[a].tag = "sig" THEN
                LET D == {e.declared[a] : a \in {x \in DOMAIN e.declared : e.declared[x].tag = "sig"}} IN
                Clause(\A d \in D : rep.ps # d.ps, "C06_DiscoveredParamsDifferFromDeclared")
